@@ -144,6 +144,19 @@ func (h *harness) explicitBaseOn(url, chain string) proto.Message {
 	case "/fx.gov.v1.MsgUpdateCustomParams":
 		vp := time.Hour
 		return &fxgovtypes.MsgUpdateCustomParams{Authority: acc(0), MsgUrl: "/fx.erc20.v1.MsgRegisterCoin", CustomParams: fxgovtypes.CustomParams{DepositRatio: "0.1", VotingPeriod: &vp, Quorum: "0.25"}}
+	case X + "UpdateChainOraclesProposal":
+		return &crosschaintypes.UpdateChainOraclesProposal{Title: "t", Description: "d", ChainName: chain, Oracles: []string{acc(1), acc(2)}}
+	case X + "InitCrossChainParamsProposal":
+		p := crosschaintypes.DefaultParams()
+		return &crosschaintypes.InitCrossChainParamsProposal{Title: "t", Description: "d", ChainName: chain, Params: &p}
+	case "/fx.erc20.v1.RegisterCoinProposal":
+		return &erc20types.RegisterCoinProposal{Title: "t", Description: "d", Metadata: fxtypes.GetCrossChainMetadataManyToOne("Tether USD", "USDT", 6, "eth0x0000000000000000000000000000000000000001")}
+	case "/fx.erc20.v1.RegisterERC20Proposal":
+		return &erc20types.RegisterERC20Proposal{Title: "t", Description: "d", Erc20Address: eth(2), Aliases: []string{"usdc"}}
+	case "/fx.erc20.v1.ToggleTokenConversionProposal":
+		return &erc20types.ToggleTokenConversionProposal{Title: "t", Description: "d", Token: eth(2)}
+	case "/fx.erc20.v1.UpdateDenomAliasProposal":
+		return &erc20types.UpdateDenomAliasProposal{Title: "t", Description: "d", Denom: "usdt", Alias: "eth0x0000000000000000000000000000000000000001"}
 	case "/fx.migrate.v1.MsgMigrateAccount":
 		from, to := p.keys[0], p.keys[1]
 		return &migratetypes.MsgMigrateAccount{From: from.Acc().String(), To: to.Hex().Hex(), Signature: h.migrateSig(from, to)}
